@@ -48,6 +48,7 @@ fn main() {
     "C34" => props::c31::run_c34(&ctx, &mut rep),
     "C32" => props::c32::run(&ctx, &mut rep),
     "C33" => props::c33::run(&ctx, &mut rep),
+    "C36" => props::c36::run(&ctx, &mut rep),
     other => {
       eprintln!("unknown property {other}");
       std::process::exit(3);
